@@ -307,7 +307,8 @@ pub fn run(tier: &str) -> i32 {
     let deadline = Instant::now() + Duration::from_secs_f64(if q { 30.0 } else { 1100.0 });
     let findings: Mutex<Vec<Finding>> = Mutex::new(vec![]);
     let tally = Mutex::new(BTreeMap::<String, u64>::new());
-    let (done, to) = par_for(jobs.len(), threads(), deadline, |ji| {
+    let required_core = jobs.iter().take_while(|j| j.prog.len() <= PROBES.len() + 1).count();
+    let (done, to) = crate::par::par_for_core(jobs.len(), required_core, threads(), deadline, |ji| {
         let job = &jobs[ji];
         let (cname, cfg, _, _) = &cfgs[job.ci];
         let nprobe = job.prog.len() - if cfgs[job.ci].2 { PROBES.len() + 1 } else { PROBES.len() };
@@ -451,7 +452,7 @@ pub fn run(tier: &str) -> i32 {
     o.assumptions = vec![
         "faults on journal files only (the property is about the journal); single-threaded driver (the multi-writer clause is covered by the E3 body of C14-style writers only structurally)".into(),
     ];
-    let required = jobs.iter().filter(|j| j.prog.len() <= PROBES.len() + 1).count();
+    let required = required_core;
     if to && done < required {
         o.machinery_errors.push(format!("time cap hit after {done} injections, before the required core of {required} (programs of depth 1) finished"));
     }
